@@ -1,0 +1,6 @@
+//go:build !verif
+// +build !verif
+
+package native
+
+func verifPostInvoke(service *NativeService, method string) error { return nil }
